@@ -59,7 +59,7 @@ theorem appendNew_spec (f : Forest) (hg : Good f) {p : Nat} {tp x : HTree} (n' :
     f1.append p x.handle = (f2, .ok) ∧ Good f2 ∧ f2.get? x.handle = some x ∧
       f2.get? p = some (appKids [x] tp) := by
   intro f1 f2
-  have hn : f.next ≤ n' := by have := hb x.handle (handle_mem_handles x); omega
+  have hn : f.next ≤ n' := by have := hb x.handle (handle_mem_handles_ff x); omega
   have hg1 : Good f1 := hg.add_roots [x] n' (by simpa [handlesList] using hnd)
     (by intro h hh; simp only [handlesList, List.append_nil] at hh; exact hb h hh) hn
   have hR : RootAt f1 f.roots x [] := ⟨rfl, hg1.nodup⟩
@@ -68,7 +68,7 @@ theorem appendNew_spec (f : Forest) (hg : Good f) {p : Nat} {tp x : HTree} (n' :
   have hxm : x.handle ∉ handlesList f.roots := by
     intro hm
     have := hg.below _ hm
-    have := (hb x.handle (handle_mem_handles x)).1
+    have := (hb x.handle (handle_mem_handles_ff x)).1
     omega
   have hpx : p ≠ x.handle := fun e => hxm (e ▸ hpm)
   refine ⟨?_, ?_, ?_, ?_⟩
